@@ -22,7 +22,7 @@ Definition e_order (o : order) : val := elist e_class o.
 Definition e_dt (d : dt) : val :=
   VI (match d with Soc => 0 | Soi => 1 | Toc => 2 | Toi => 3 | DNone => 4 end)%Z.
 
-Definition observe (raised : bool) (s : state) : val :=
+Definition observe (raised : bool) (ms : list order) (s : state) : val :=
   VL [ elist (epair e_order eN) (mult s);            (* 0  multiplicity.items() *)
        elist e_order (ords s);                       (* 1  orders *)
        eN (n_vot s);                                 (* 2  num_voters *)
@@ -44,15 +44,21 @@ Definition observe (raised : bool) (s : state) : val :=
        enat (smallest_indif s);                      (* 18 *)
        ebool (sanity_ok s);                          (* 19 sanity.orders: no complaint (label check apart) *)
        ebool (sanity_zero_ok s);                     (* 20 *)
-       ebool raised ].                               (* 21 the call raised (ValueError from infer_type) *)
+       ebool raised;                                 (* 21 the call raised (ValueError from infer_type) *)
+       elist e_order (ords s);                       (* 22 preferences (alias of orders) *)
+       e_dt (spec_type ms) ].                        (* 23 the type of the multiset of votes added so far,
+                                                           by definition (Proofs: = data_type when ms <> []) *)
 
-Fixpoint observe_run (s : state) (ops : list op) : list val :=
+Fixpoint observe_run (s : state) (ms : list order) (ops : list op) : list val :=
   match ops with
   | [] => []
-  | o :: r => let s' := step s o in observe (step_raises s o) s' :: observe_run s' r
+  | o :: r =>
+      let s' := step s o in
+      let ms' := (ms ++ votes o)%list in
+      observe (step_raises s o) ms' s' :: observe_run s' ms' r
   end.
 
 Definition op_history (v : val) : val :=
-  VL (observe false init :: observe_run init (dlist d_op v)).
+  VL (observe false [] init :: observe_run init [] (dlist d_op v)).
 
 Definition ops : optable := [ ("c02.history", op_history) ].
